@@ -215,7 +215,8 @@ def frequency_index_lemmas(s, label, phase, idx, n):
 
     def quick(X):
         sv = z3.Solver()
-        sv.set("timeout", 2000)
+        sv.set("rlimit", 8000000)   # deterministic resource limit (a wall-clock limit made the chosen candidate depend on machine load)
+        sv.set("timeout", 600000)
         for h in s.ctx.pc:
             if not z3.is_quantifier(h):
                 sv.add(h)
